@@ -21,7 +21,7 @@ ATOL = 1e-11
 RULE = ('objects: pardim 1-3, dim 2-3(4), rational with positive weights, open/periodic bases per direction, non-square shapes; '
         'parameters: knots, ends, span interiors, outside (ValueError), periodic points periods away; forms: grid lists, scalars, '
         'tensor=False, __call__, default control points (identity map), bounding box.  non-trivial = parameters inside the domain.')
-REQUIRED_TAGS = ['form=grid', 'form=scalar', 'form=pointwise', 'form=default', 'outside', 'rational', 'periodic-dir', 'pardim=1', 'pardim=2', 'pardim=3', 'form=bbox']
+REQUIRED_TAGS = ['equal-weights-not-one', 'form=grid', 'form=scalar', 'form=pointwise', 'form=default', 'outside', 'rational', 'periodic-dir', 'pardim=1', 'pardim=2', 'pardim=3', 'form=bbox']
 
 
 def _params(rng, o, n_per_dir, outside=False):
@@ -47,6 +47,15 @@ def generate(rng, tier):
         o = gen.rand_object(rng, pardim=pardim, pmax=4 if pardim < 3 else 3, max_interior=2 if pardim < 3 else 1,
                             dim=rng.choice([2, 3, 4]) if pardim < 3 and rng.random() < 0.2 else None,
                             wide=(tier == 'thorough' and rng.random() < 0.2))
+        if oi % 6 == 4:
+            # rational object whose weights are all EQUAL but not 1 (control points are stored
+            # pre-multiplied, so the division by the weight is still needed)
+            o = gen.rand_object(rng, pardim=pardim, pmax=3, max_interior=1, rational=True)
+            wconst = rng.choice([2.0, 0.25, 3.0, 0.5])
+            arr = np.array(o['cps'], dtype=float)
+            arr[..., -1] = wconst
+            o['cps'] = arr.tolist()
+            o['_equal_weights'] = True
         n = {1: 4, 2: 3, 3: 2}[pardim]
         specs.append({'form': 'grid', 'obj': o, 'params': _params(rng, o, n)})
         specs.append({'form': 'call', 'obj': o, 'params': _params(rng, o, n)})
@@ -249,6 +258,8 @@ def tags(s, res):
     out.append('pardim=%d' % len(bases))
     if (o and o['rational']) or s.get('rational'):
         out.append('rational')
+    if o and o.get('_equal_weights'):
+        out.append('equal-weights-not-one')
     if any(b['periodic'] >= 0 for b in bases):
         out.append('periodic-dir')
     if 'params' in s and not _in_domain({'bases': bases}, s['params']):
